@@ -1,4 +1,6 @@
 """C09 - lazy loading is invisible: served values do not depend on access order."""
+from contracts import core as K
+
 ID = "C09"
 LEVEL = "other"
 TRUSTED = ["the events of the alphabet are run on CPython itself in fresh interpreters (no model of the object system)",
@@ -16,7 +18,7 @@ EXPLANATION = ("Invariant argument decided by closed step obligations (eval): In
 
 
 def units(tier):
-    return []
+    return [K.L_REGISTRATION]
 
 
 def runner_tasks(tier):
